@@ -48,7 +48,7 @@ def main():
     res = {"property": prop, "ran": []}
     env = dict(os.environ, PYTHONPATH=f"{wt}/src", MPLBACKEND="Agg")
     try:
-        b = run(["/tmp/seedtools/build_ext.sh", str(wt)])
+        b = run([str(VERIF / "tools/seedtools/build_ext.sh"), str(wt)])
         assert b.returncode == 0, b.stderr[-500:]
         d0 = run(["/venv/bin/python", str(demo)], env=env, cwd=wt)
         res["demo_unchanged_exit"] = d0.returncode
@@ -56,11 +56,11 @@ def main():
         if ap_.returncode != 0:
             print("PATCH DOES NOT APPLY:", ap_.stderr[-400:])
             return 2
-        b = run(["/tmp/seedtools/build_ext.sh", str(wt)])
+        b = run([str(VERIF / "tools/seedtools/build_ext.sh"), str(wt)])
         if b.returncode != 0:
             print("BUILD FAILS:", b.stderr[-800:])
             return 2
-        bl = run(["/tmp/seedtools/run_baseline.sh", str(wt)])
+        bl = run([str(VERIF / "tools/seedtools/run_baseline.sh"), str(wt)])
         res["baseline"] = bl.stdout.strip().splitlines()[0] \
             if bl.stdout.strip() else "?"
         res["baseline_ok"] = bl.returncode == 0
